@@ -142,6 +142,7 @@ type Exec struct {
 	orders         map[*ssa.Function]map[*ssa.BasicBlock]int
 	loopsNoMeasure map[string]bool
 	lemmaStart     int
+	lastResult     Value
 }
 
 type ExecOpts struct {
